@@ -196,6 +196,44 @@ def build_axi2axilite_proto(K):
              show=mon.showl + [lbus.aw.valid, lbus.aw.ready, lbus.aw.addr, lbus.w.valid, lbus.w.ready, lbus.b.valid, lbus.b.resp, lbus.ar.valid, lbus.ar.ready, lbus.ar.addr, lbus.r.valid, lbus.r.ready, lbus.r.resp], vcycles=30, timeout_s=3000)
 
 
+def build_axi2axilite_narrow(K):
+    """AXI2AXILite read bursts with a transfer size BELOW the bus width (AxSIZE 0 on a 16-bit bus, also AxSIZE 1), INCR, 1..3 beats: the
+    AXI-Lite read addresses are the AMBA beat addresses start + i * 2**size; every beat is answered, last on the final one"""
+    from litex.soc.interconnect import axi
+    from vf.props.c09 import FUNCS
+    top = Top()
+    abus = axi.AXIInterface(data_width=16, address_width=6, id_width=1)
+    lbus = axi.AXILiteInterface(data_width=16, address_width=6)
+    top.submodules.br = axi.AXI2AXILite(abus, lbus)
+    top.submodules.se = se = AxilSlave(lbus, "s", max_outstanding=1)
+    ar = abus.ar
+    free = [ar.valid, ar.addr, ar.len, ar.size, ar.burst, ar.id, abus.r.ready]
+    sigs = Cat(ar.addr, ar.len, ar.size, ar.burst, ar.id)
+    pend = top.reg(1, "pend_ar"); pp = top.reg(len(sigs), "pp_ar")
+    top.sync += [pend.eq(ar.valid & ~ar.ready), pp.eq(sigs)]
+    nar = top.reg(3, "n_ar"); nrl = top.reg(3, "n_rl")
+    top.sync += [If(hs(ar), nar.eq(nar + 1)), If(hs(abus.r) & abus.r.last, nrl.eq(nrl + 1))]
+    asm = Signal(name_override="asm_axi_read_master")
+    top.comb += asm.eq((~pend | (ar.valid & (sigs == pp))) & (~ar.valid | ((ar.burst == BURST_INCR) & (ar.size <= 1) & (ar.len <= 2) & ((ar.addr & ((1 << ar.size) - 1)) == 0) & (nar == nrl)))
+                       & (nar != 7))
+    ea = top.reg(6, "exp_addr"); esz = top.reg(2, "exp_size"); left = top.reg(3, "beats_left"); rleft = top.reg(3, "r_left")
+    top.sync += [If(hs(ar), ea.eq(ar.addr), esz.eq(ar.size), left.eq(ar.len + 1), rleft.eq(ar.len + 1)),
+                 If(hs(lbus.ar), ea.eq(ea + (1 << esz)), left.eq(left - 1)),
+                 If(hs(abus.r), rleft.eq(rleft - 1))]
+    bad_addr = Signal(name_override="bad_beat_address")
+    top.comb += bad_addr.eq(hs(lbus.ar) & ((lbus.ar.addr != ea) | (left == 0)))
+    bad_last = Signal(name_override="bad_rlast")
+    top.comb += bad_last.eq(hs(abus.r) & (abus.r.last != (rleft == 1)))
+    w = Signal(name_override="w_narrow_burst_done")
+    done_narrow = top.reg(1, "narrow3_done")
+    top.sync += If(hs(abus.r) & abus.r.last & (esz == 0) & (rleft == 1) & (ea != 0), done_narrow.eq(1))
+    top.comb += w.eq(done_narrow)
+    return H("axi2axilite_narrow_reads", top, free + se.free, assume=[asm, se.asm, se.no_ovf], bad=dict(axilite_read_addresses_are_the_amba_beat_addresses=bad_addr, rlast_on_final_beat=bad_last),
+             witness=dict(narrow_burst_completed=w), K=K, funcs=FUNCS + ["litex.soc.interconnect.axi.axi_full_to_axi_lite.AXI2AXILite", "litex.soc.interconnect.axi.axi_full.AXIBurst2Beat"],
+             cfg=dict(bus_width=16, sizes=[0, 1], max_len=2, partner="AXI-Lite slave taking one request at a time"),
+             show=[ar.valid, ar.ready, ar.addr, ar.len, ar.size, lbus.ar.valid, lbus.ar.ready, lbus.ar.addr, abus.r.valid, abus.r.last], vcycles=30, timeout_s=2000)
+
+
 class AHBMaster(Mon):
     """single (NONSEQ/IDLE) AHB transfers; address phase held while not ready; write data held through the data phase"""
 
@@ -271,6 +309,7 @@ def jobs(tier):
           Job("axilite2axi_d8", build_x2axi, dict(kind="axilite2axi", dw=8, depth=8, K=K), cost=15, timeout_s=3400),
           Job("wishbone2axi_d8", build_x2axi, dict(kind="wishbone2axi", dw=8, depth=8, K=K), cost=15, timeout_s=3400),
           Job("axi2axilite_proto", build_axi2axilite_proto, dict(K=K), cost=15, timeout_s=3400),
+          Job("axi2axilite_narrow_reads", build_axi2axilite_narrow, dict(K=K + 2), cost=10, timeout_s=3400),
           Job("ahb2wishbone_d32", build_ahb, dict(dw=32, depth=4, K=K), cost=8)]
     if T:
         js += [Job("axi2axilite_d32", build_axi2x, dict(kind="axi2axilite", dw=32, depth=8, K=K), cost=30, timeout_s=3400),
